@@ -132,22 +132,31 @@ def run(ctx):
             if bb.cleanup:
                 continue
             cmp_dest = None
+            cmp_is_ne = False
             if bb.term[0] == 'call':
                 c = bb.term[1]
                 if any(glob_match('*PartialEq*::eq', n) or glob_match('*PartialEq*::ne', n) for n in c.names()) and len(c.args) == 2:
                     ls = [a[1][0] for a in c.args if a[0] in ('copy', 'move')]
                     if len(ls) == 2 and ((ls[0] in pder and ls[1] in kder and ls[1] not in pder) or (ls[1] in pder and ls[0] in kder and ls[0] not in pder)):
                         cmp_dest = c.dest[0]
+                        cmp_is_ne = any(n.endswith('::ne') for n in c.names())
             for (_, pl, rv) in bb.stmts:
                 if rv[0] == 'bin' and rv[1] in ('Eq', 'Ne'):
                     ls = [o[1][0] for o in (rv[2], rv[3]) if o[0] in ('copy', 'move')]
                     if len(ls) == 2 and ((ls[0] in pder and ls[1] in kder) or (ls[1] in pder and ls[0] in kder)):
                         cmp_dest = pl[0]
+                        cmp_is_ne = rv[1] == 'Ne'
             if cmp_dest is not None:
-                dd = flows_forward(body, {cmp_dest}, True) | {cmp_dest}
-                if any(b2.term[0] == 'sw' and b2.term[1][0] in ('copy', 'move') and b2.term[1][1][0] in dd for b2 in body.blocks if not b2.cleanup):
+                # the comparison must GATE success: Ok is unreachable unless it came out "equal" (seed C16-3: the comparison was skipped for
+                # signatures already flagged Authenticated - which is what the message-queue path flags every signature as)
+                from engine import track_result as _trk
+                t_ = _trk(body, cmp_dest, +1, 'bool')
+                eq_edges = t_.fail_edges if cmp_is_ne else t_.success_edges
+                if eq_edges and not success_reachable(body, eq_edges, 'ok'):
                     bound = True
-                    detail.append('slot key compared with the key registered by the party (bb%d)' % bi)
+                    detail.append('slot key compared with the key registered by the party (bb%d), equal outcome required for Ok' % bi)
+                else:
+                    detail.append('a comparison of the slot key with the party\'s key exists (bb%d) but Ok is reachable without its equal outcome' % bi)
         inst = 'MultiSigner::verify_single_signature: the key the signature is verified with is the key registered by signature.party_id'
         if influences and bound:
             R.ok('b', 'R5', inst, str(detail[-2:]), cv.loc())
